@@ -12,7 +12,8 @@ from mc.worlds.base import frame_digest
 def world_names():
     from mc.worlds import registry
 
-    return list(registry.WORLDS.keys())
+    # the synthetic-index GM pool differs from the plain one in how it is VALUED only (C01's subject): its operations are those of gmx2(mild,small)
+    return [k for k in registry.WORLDS.keys() if k != "gmx2(mild,small,synthetic-index)"]
 
 
 def get_world(name):
@@ -58,7 +59,7 @@ def run_all(run, oracle_mod, depth, max_dev, worlds=None):
         for root in world.roots:
             ctx, _ = kit.replay_history(world.build, world.alphabet, root)
             labels = [o.label for o in world.alphabet(ctx)]
-            n = 4 if len(labels) > 8 else 1
+            n = (8 if len(labels) > 40 else 4) if len(labels) > 8 else 1  # partitions of the first level (wall time = the slowest partition)
             for i in range(n):
                 jobs.append((run.seed, w, tuple(root), depth, max_dev, oracle_mod, frozenset(labels[i::n])))
     jobs = run.rotate(jobs)
